@@ -3,13 +3,14 @@ import GdVerif.Run.Valve
 import GdVerif.Run.GenValve
 import GdVerif.Run.Master
 import GdVerif.Run.Settings
+import GdVerif.Run.Views
 /-
   gdmodel: the model behind a line protocol.
     gdmodel run        : reads `<id> <entry> <args…>` lines on stdin, prints `<id> <outcome>`
 -/
 open Gd Gd.Run
 
-def allEntries : List (String × (List String → String)) := readerEntries ++ valveEntries ++ masterEntries ++ settingsEntries
+def allEntries : List (String × (List String → String)) := readerEntries ++ valveEntries ++ masterEntries ++ settingsEntries ++ viewEntries
 
 def runLine (line : String) : String :=
   match line.trimAscii.toString.splitOn " " with
